@@ -1,5 +1,6 @@
 // The only user of the friend hook (H1) and the definition of the bounds monitor callback (H2).
 #pragma once
+#include <optional>
 #ifndef CTPG_VERIF
 #error "engines must be built with -DCTPG_VERIF"
 #endif
@@ -57,6 +58,20 @@ struct access
     {
         inject(p, g, park, slot_pattern, dsl_prec, [](int, int prec, int assoc) { return std::pair<int, int>(prec, assoc); });
     }
+    template<class F> static auto rebuild_term(const ctpg::typed_term<ctpg::char_term, F>& o, int prec, ctpg::associativity a) { return ctpg::typed_term(ctpg::char_term(o.get_data(), prec, a), o.get_ftor()); }
+    template<class F> static auto rebuild_term(const ctpg::custom_term<F>& o, int prec, ctpg::associativity a) { return ctpg::custom_term(o.get_name(), o.get_ftor(), prec, a); }
+    template<size_t I, class P> static void reanalyze_term(P& p, int prec, int assoc)
+    {
+        using T = std::tuple_element_t<I, std::decay_t<decltype(p.term_tuple)>>;
+        static thread_local std::optional<T> slot;           // term_names / term_ids keep pointers into the term object: it must outlive the parse
+        slot.emplace(rebuild_term(std::get<I>(p.term_tuple), prec, ctpg::associativity(assoc)));
+        p.template analyze_term<I>(*slot);
+    }
+    template<class P, class DslTerm, size_t... I> static void reanalyze_terms(P& p, const ref::Grammar& g, DslTerm dsl_term, std::index_sequence<I...>)
+    {
+        auto one = [&](auto ic) { constexpr size_t K = decltype(ic)::value; int prec = 0, assoc = 0; if (int(K) < g.nT) { std::pair<int, int> pa = dsl_term(int(K), g.tprec[K], int(g.tassoc[K])); prec = pa.first; assoc = pa.second; } reanalyze_term<K>(p, prec, assoc); };
+        (one(std::integral_constant<size_t, I>{}), ...);
+    }
     //   dsl_term(t,prec,assoc) : (precedence, associativity) that a term object built with the public constructors reports for the declared values
     template<class P, class DslPrec, class DslTerm>
     static void inject(P& p, const ref::Grammar& g, int park, const std::vector<std::vector<int>>& slot_pattern, DslPrec dsl_prec, DslTerm dsl_term)
@@ -65,9 +80,11 @@ struct access
         using rule_info = typename P::rule_info;
         constexpr size_t RC = P::rule_count;
         p.gi = typename P::grammar_info{};
-        for (int t = 0; t < g.nT; ++t) { std::pair<int, int> pa = dsl_term(t, g.tprec[t], int(g.tassoc[t])); p.gi.term_precedences[t] = pa.first; p.gi.term_associativities[t] = ctpg::associativity(pa.second); }
-        p.gi.term_precedences[P::eof_idx] = 0; p.gi.term_associativities[P::eof_idx] = ctpg::associativity::no_assoc;
-        p.gi.term_precedences[P::error_recovery_token_idx] = 0; p.gi.term_associativities[P::error_recovery_token_idx] = ctpg::associativity::no_assoc;
+        // terms: the constructor's own analyze_term<I> runs on a term object of the template's term type (typed_term<char_term, F> / custom_term<F>)
+        // rebuilt with the generated precedence and associativity; <eof> and the error token through their own analysis functions
+        reanalyze_terms(p, g, dsl_term, std::make_index_sequence<std::tuple_size_v<std::decay_t<decltype(p.term_tuple)>>>{});
+        p.analyze_eof();
+        p.analyze_error_recovery_token();
         std::vector<const ref::Rule*> by_slot(RC - 1, nullptr);
         for (auto& r : g.rules) by_slot.at(size_t(r.slot)) = &r;
         for (size_t s = 0; s + 1 < RC; ++s)
